@@ -11,7 +11,47 @@ def thorough_guards(prop, cfg, seed):
     for s in (seed + 101, seed + 202):
         res = runner.run_units(cfg["units"], seed=s)
         info["seeds"][str(s)] = {u: {"status": r.status, "verified": r.verified, "errors": r.errors} for u, r in res.items()}
+        for u, r in res.items():
+            if r.status != "ok":
+                info["undecided"].append("UNDECIDED property=%s reason=unit %s is not stable under solver seed %d (%s)" % (prop, u, s, r.status))
+    # sensitivity self-test: the seeded change kept for this property (seeded/<id>/patch.diff) is applied to a scratch COPY of the
+    # repository sources (never to /repo) and the Verus units of the property are re-run on it: they must no longer verify
+    info["seeded_selftest"] = seeded_selftest(prop, cfg)
+    st = info["seeded_selftest"]
+    if st.get("applied") and not st.get("detected"):
+        info["undecided"].append("UNDECIDED property=%s reason=the seeded change seeded/%s is no longer detected by the Verus units (sensitivity lost)" % (prop, prop))
     return info
+
+
+def seeded_selftest(prop, cfg):
+    import shutil, subprocess, tempfile
+    patch = os.path.join(ROOT, "seeded", prop, "patch.diff")
+    if not os.path.exists(patch) or not cfg.get("units"):
+        return {"applied": False, "reason": "no seeded change kept for this property"}
+    meta = {}
+    try:
+        meta = json.load(open(os.path.join(ROOT, "seeded", prop, "meta.json")))
+    except Exception:
+        pass
+    if "Verus" not in meta.get("caught_by", "Verus"):
+        return {"applied": False, "reason": "this seeded change is detected by the differential replay, not by a Verus obligation (see seeded/%s/meta.json)" % prop}
+    tmp = tempfile.mkdtemp(prefix="verif_selftest_")
+    saved = extract.REPO
+    try:
+        shutil.copytree(os.path.join(saved, "src"), os.path.join(tmp, "src"))
+        for f in ("Cargo.toml", "Cargo.lock"):
+            if os.path.exists(os.path.join(saved, f)):
+                shutil.copy(os.path.join(saved, f), os.path.join(tmp, f))
+        p = subprocess.run(["patch", "-p1", "-s", "-d", tmp, "-i", patch], capture_output=True, text=True)
+        if p.returncode != 0:
+            return {"applied": False, "reason": "patch does not apply to the current tree: " + (p.stdout + p.stderr)[-300:]}
+        extract.REPO = tmp
+        res = runner.run_units(cfg["units"], multiple_errors=1, outdir=os.path.join(tmp, "build"))
+        detected = any(r.status != "ok" for r in res.values())
+        return {"applied": True, "detected": detected, "units": {u: {"status": r.status, "errors": r.errors} for u, r in res.items()}}
+    finally:
+        extract.REPO = saved
+        shutil.rmtree(tmp, ignore_errors=True)
 
 
 def c18_walk_count(prop, tier, seed, cfg):
